@@ -12,7 +12,8 @@ def toolOf : String → Option Tool
   | "garbage_ragged" => some .garbageRagged | "garbage_missing" => some .garbageMissing
   | "garbage_length" => some .garbageLength
   | "garbage_tree" => some .garbageTree | "exit3" => some .exit3 | "hang" => some .hang
-  | "missing" => some .missing | _ => none
+  | "sigkill" => some .sigkill
+  | "missing" => some .missing | "isdir" => some .isdir | "nulbyte" => some .nulbyte | _ => none
 
 def seqtypeOf : String → Option String
   | "prot" => some "protein" | "nuc" => some "nucleotide" | "generic" => some "protein" | _ => none
@@ -46,7 +47,7 @@ def step (st : Option (Option St)) (line : String) : Option (Option St) × Strin
     match wrapperOf w, toolOf t, n.toNat?, seqtypeOf k with
     | some w, some t, some n, some k =>
       -- MuscleApp / Muscle5App call get_version(bin_path) before anything else: a missing binary fails construction
-      if (w = .muscle3 ∨ w = .muscle5) ∧ t = .missing then (some none, "ERR:FileNotFoundError | " ++ noObs)
+      if (w = .muscle3 ∨ w = .muscle5) ∧ launchFails t then (some none, "ERR:" ++ (errLaunch t).toString ++ " | " ++ noObs)
       else
         let s := init w t n k
         (some (some s), "ok | " ++ showObs s)
